@@ -241,7 +241,21 @@ def c17a(ck, prog):
     ck.ob(R, "head-before-items", ok, f.loc(nx.sp), "" if ok else "the response head is not written and flushed before the first stream item is awaited", how="write_all(head); flush() dominate stream.next()")
     per = [c for c in wa_s if f.dominates(ap.bb, c.bb) and chunk is not None and paths.root_call(f, c.args[1], through=THRU) is not None and paths.root_call(f, c.args[1], through=THRU).bb == chunk.bb]
     ok = len(per) == 1 and any(f.dominates(per[0].bb, x.bb) for x in fl_s)
-    ck.ob(R, "chunk-sent-per-item", ok, f.loc(ap.sp), "" if ok else "the chunk is not written and flushed in the item's iteration", how="write_all(chunk); flush() after the append")
+    # ... for every item and every line: once the stream (the line iterator) has answered `Some`, it is not asked again before
+    # the item's chunk was written (the line's three writes were made) -- no `continue` on an empty item or a blank line
+    if ok and per:
+        nxpoll = [p_ for p_ in f.calls() if re.search(r"Future::poll$", p_.decl or "") and paths.root_call(f, p_.args[0]) is not None and paths.root_call(f, p_.args[0]).bb == nx.bb]
+        tbs = [tb for pp in nxpoll for tb in paths.some_edge_targets(f, prog, pp.bb)]
+        if not tbs:
+            tbs = paths.some_edge_targets(f, prog, nx.bb)
+        if not tbs or any(nx.bb in f.reachable_from(tb, avoid=(per[0].bb,)) for tb in tbs):
+            ok = False
+    if ok and len(loop_nx) == 1:
+        ltbs = paths.some_edge_targets(f, prog, loop_nx[0].bb)
+        line_writes = [c for c in mw if in_line(c)]
+        if not ltbs or any(loop_nx[0].bb in f.reachable_from(tb, avoid=(w.bb,)) for tb in ltbs for w in line_writes):
+            ok = False
+    ck.ob(R, "chunk-sent-per-item", ok, f.loc(ap.sp), "" if ok else "the chunk is not written and flushed in the item's iteration on every path (or a line of the message is skipped): an empty message or a blank line would be dropped", how="write_all(chunk); flush() after the append, for every item; every line written")
     # (5) terminal chunk on every exit of the item loop
     term = [c for c in wa_s if lit(f, c, 1) == "0\r\n\r\n"]
     ok = len(term) == 1
